@@ -111,6 +111,11 @@ pub fn local_to_absolute_addr(
     index: u16,
     num_proc_locals: u16,
 ) -> Result<(), AssemblyError> {
+    // a procedure which declares no locals (including the program's main procedure) has no local
+    // at any index
+    if num_proc_locals == 0 {
+        return Err(AssemblyError::param_out_of_bounds(index as u64, 0, 0));
+    }
     let max = num_proc_locals - 1;
     validate_param(index, 0..=max)?;
 
